@@ -605,6 +605,52 @@ def r75(ctx, fx):
         ctx.fail_closed(rid, "with_scope no longer inserts exactly the block symbols `-` and `+` (%s)" % names)
 
 
+def r710(ctx, fx, et):
+    rid = ctx.rule("R7.10", "`.import *` makes every name of the imported scope visible, the names the imported file got from its own imports too (the file's text, placed "
+                   "at the import site, would have them): in the `*` branch of the import arm the loop over the children of the import scope exports each child under "
+                   "no other condition than `is_special()`")
+    from .c11 import _anc_walk
+    arm = token_arm(et, "Import")
+    if arm is None:
+        ctx.fail_closed(rid, "Token::Import arm not found in emit_token")
+        return
+    loops = [n for n in lib.hwalk(arm["body"]) if n.get("k") == "match" and n.get("src") == "ForLoopDesugar" and
+             any(y.get("k") == "mcall" and y.get("name") == "children" for y in lib.hwalk(n["scrut"]))]
+    if len(loops) != 1:
+        ctx.fail_closed(rid, "the loop over the children of the import scope was not found uniquely (%d)" % len(loops))
+        return
+    loop = loops[0]
+    pushes = 0
+    bad = []
+    for x in lib.hwalk(loop["arms"]):
+        if x.get("k") == "mcall" and x.get("name") == "push":
+            pushes += 1
+    for n in lib.hwalk(loop["arms"]):
+        if n.get("src") in ("ForLoopDesugar", "WhileDesugar") or (n.get("k") == "match" and any(str(v).endswith(("Option::None", "Option::Some(_)")) for a in n["arms"] for v in lib.pat_variants(a["pat"])) and "next" in repr(lib.hdesc(n["scrut"]))):
+            continue
+        conds = []
+        if n.get("k") == "if":
+            conds.append(n["cond"])
+        if n.get("k") == "match" and n.get("src") == "Normal":
+            conds.append(n["scrut"])
+            conds += [a["guard"] for a in n["arms"] if a.get("guard") is not None]
+        for c in conds:
+            calls = {y.get("name") for y in lib.hwalk(c) if y.get("k") == "mcall"} | {str(lib.hcallee(y) or "").rsplit("::", 1)[-1] for y in lib.hwalk(c) if y.get("k") == "call"}
+            calls.discard("")
+            if calls - {"is_special"} or not calls:
+                bad.append((n.get("ln"), sorted(calls)))
+    # adaptors on the iterated collection that drop elements
+    filt = [y.get("name") for y in lib.hwalk(loop["scrut"]) if y.get("k") == "mcall" and y.get("name") in ("filter", "filter_map", "take", "skip", "take_while", "skip_while", "retain")]
+    key = "%s|Import|all-children-exported" % et.path
+    ctx.inst(rid, key, sample={"pushes_in_the_loop": pushes, "other_conditions": bad, "filters_on_the_children": filt})
+    if pushes < 1:
+        ctx.fail_closed(rid, "the loop over the children exports nothing (no push)")
+    elif bad or filt:
+        ctx.finding(rid, key, "`.import *` leaves out some of the imported scope's names (%s): a name the imported file itself imported is not visible to the importer, a use "
+                    "of it binds to a symbol of the same name further out — other bytes, no diagnostic — or is `unknown`, while the hand expansion assembles" % (
+                        ", ".join("condition on %s" % "/".join(c) for _, c in bad) or "filtered with %s" % "/".join(filt)), "%s:%s" % (et.file, loop.get("ln")))
+
+
 def run(ctx):
     fx = ctx.facts
     et = fx.fn(CC + "::emit_token")
@@ -619,4 +665,5 @@ def run(ctx):
     r79(ctx, fx, et)
     r76_77(ctx, fx, et)
     r78(ctx, fx)
-    ctx.not_decided("byte equality of (P, expand(P)) on concrete programs; `.const` substitution; import scoping and export of names; nesting depth")
+    r710(ctx, fx, et)
+    ctx.not_decided("byte equality of (P, expand(P)) on concrete programs; `.const` substitution; import scoping beyond R7.10; nesting depth")
